@@ -129,6 +129,9 @@ func LoadKnown(path string) ([]KnownFinding, error) {
 
 // Finish prints the verdict, writes evidence and returns the exit code.
 func (c *Ctx) Finish(verifDir string, seed int64, t0 time.Time) int {
+	if c.Trusted == nil {
+		c.Trusted = []string{}
+	}
 	evPath := filepath.Join(verifDir, "evidence", c.Prop+".json")
 	violPath := filepath.Join(verifDir, "evidence", c.Prop+".violations.json")
 	os.MkdirAll(filepath.Dir(evPath), 0o755)
@@ -204,6 +207,15 @@ func (c *Ctx) Finish(verifDir string, seed int64, t0 time.Time) int {
 			"packages_loaded": len(c.P.All), "node_packages": len(c.P.NodePkgs),
 		},
 		"notes": c.Notes,
+	}
+	if c.Assume == nil {
+		c.Assume = []string{}
+	}
+	if c.Trusted == nil {
+		c.Trusted = []string{}
+	}
+	if c.Notes == nil {
+		c.Notes = []string{}
 	}
 	ev := map[string]interface{}{
 		"property_id": c.Prop,
